@@ -39,6 +39,17 @@ def build_text(elements: List[Dict[str, Any]]) -> str:
     return json.dumps(doc)
 
 
+def handler_table(spec: Dict[str, Any]) -> Dict[str, Any]:
+    # handlers whose effect is visible in the response (annotate / replace), so that a handler that is skipped for one of several
+    # concurrently failing elements changes the document
+    if spec.get('eh_suspend') is None:
+        return {}
+    table: Dict[str, Any] = {'generic': [{'kind': spec.get('eh_kind', 'identity'), 'suspend': spec['eh_suspend']}], 'codes': []}
+    if spec.get('eh_code7'):
+        table['codes'].append([7, [{'kind': spec['eh_code7']}]])
+    return table
+
+
 def total_points(spec: Dict[str, Any]) -> int:
     n = 0
     for el in spec['elements']:
@@ -59,7 +70,7 @@ class C10(Check):
     rule = (
         "cases: batches of 2..4 elements, each a call or notification to a coroutine that returns / raises a protocol error / raises an "
         "exception (0..2 suspension points each), a plain non-coroutine function, an async class based view method (with constructor context, and context-less using self as per-request scratch space) or an unknown method; "
-        "optional middleware and generic error handler with 0..1 suspension points each; concurrent_batch on / off. For every case ALL "
+        "optional middleware and generic error handler (identity / annotating / replacing, plus an optional handler for the protocol error's code) with 0..1 suspension points each; concurrent_batch on / off. For every case ALL "
         "interleavings are enumerated by DFS over 'which parked coroutine resumes next' under a harness-owned event-loop scheduler (up to "
         "2520 for 4 x 2; cases whose total suspension points exceed the tier bound follow the sampled schedules drawn by Hypothesis). Oracle "
         "for every schedule: response document == reference server (request order, own id, own result / error), each element executed "
@@ -74,7 +85,7 @@ class C10(Check):
     ]
     trusted_base = ['pbt/sched.py', 'pbt/refserver.py', 'CPython asyncio']
     required_classes = ['mode/concurrent', 'mode/sequential', 'schedules/exhaustive', 'el/notification', 'el/plain', 'el/rpc', 'el/exc',
-                        'el/nope', 'el/w.scratch', 'mw/suspends', 'eh/suspends', 'reorder-possible']
+                        'el/nope', 'el/w.scratch', 'mw/suspends', 'eh/suspends', 'eh/annotate/two-failing-elements', 'reorder-possible']
 
     def max_points(self, tier: str) -> int:
         return 6 if tier == 'quick' else 8
@@ -101,8 +112,10 @@ class C10(Check):
             return spec
 
         return st.builds(
-            lambda c, els, mw, eh: fit({'concurrent': c, 'elements': els, 'mw_suspend': mw, 'eh_suspend': eh, 'schedule': 'all'}),
+            lambda c, els, mw, eh, ek, e7: fit({'concurrent': c, 'elements': els, 'mw_suspend': mw, 'eh_suspend': eh, 'eh_kind': ek, 'eh_code7': e7,
+                                                'schedule': 'all'}),
             st.booleans(), st.lists(s_el, min_size=2, max_size=4), st.sampled_from([None, None, 0, 1]), st.sampled_from([None, None, 0, 1]),
+            st.sampled_from(['identity', 'annotate', 'annotate', 'replace']), st.sampled_from([None, None, 'annotate', 'replace']),
         )
 
     def corpus(self):
@@ -114,6 +127,8 @@ class C10(Check):
                 {'concurrent': conc, 'elements': [c('ret', 1), c('rpc', 1, 'notification'), c('exc', 1), c('plain', 0)], 'mw_suspend': 1, 'eh_suspend': 1, 'schedule': 'all'},
                 {'concurrent': conc, 'elements': [c('v.view', 1), c('nope', 0), c('ret', 2, 'notification')], 'mw_suspend': 0, 'eh_suspend': 1, 'schedule': 'all'},
             ]
+        out.append({'concurrent': True, 'elements': [c('rpc', 1), c('rpc', 1), c('exc', 1), c('exc', 0), c('nope', 0), c('nope', 0)], 'mw_suspend': None,
+                    'eh_suspend': 0, 'eh_kind': 'annotate', 'eh_code7': 'replace', 'schedule': 'all'})
         out.append({'concurrent': True, 'elements': [c('ret', 2), c('rpc', 2), c('exc', 2), c('ret', 2)], 'mw_suspend': None, 'eh_suspend': None, 'schedule': 'all'})
         out.append({'concurrent': True, 'elements': [c('w.scratch', 2), c('w.scratch', 1), c('w.scratch', 2, 'notification')], 'mw_suspend': None, 'eh_suspend': None, 'schedule': 'all'})
         return out
@@ -142,9 +157,7 @@ class C10(Check):
         mws = [probe]
         if spec.get('mw_suspend') is not None:
             mws += stack.build_middlewares([{'kind': 'pass', 'suspend': spec['mw_suspend']}], ev, True, s.point)
-        table = {}
-        if spec.get('eh_suspend') is not None:
-            table = stack.build_handlers({'generic': [{'kind': 'identity', 'suspend': spec['eh_suspend']}], 'codes': []}, ev, True, s.point)
+        table = stack.build_handlers(handler_table(spec), ev, True, s.point)
         sentinel = object()
         ev.sentinel = sentinel
         suspend = {f"tag:{i}": el.get('suspend', 0) for i, el in enumerate(spec['elements'])}
@@ -155,7 +168,8 @@ class C10(Check):
 
     def run_case(self, spec: Any) -> Outcome:
         text = build_text(spec['elements'])
-        exp = ref.expect(text, REGISTRY, BEHAVIOURS)
+        mws_model = [] if spec.get('mw_suspend') is None else [{'kind': 'pass'}]
+        exp_doc, exp_executions, _events, _classes = stack.expect_stack(text, REGISTRY, BEHAVIOURS, mws_model, handler_table(spec))
         discs: List[Disc] = []
         seen_buckets = set()
         stats = {'schedules': 0, 'reordered': 0}
@@ -173,11 +187,11 @@ class C10(Check):
                     except Exception as e:
                         found.append(('malformed-return', f"{result!r}: {e}"))
                 if not found:
-                    for clause, detail in ref.compare_document(exp.doc, got):
+                    for clause, detail in ref.compare_document(exp_doc, got):
                         found.append((f"response/{clause.split('/')[0]}", detail))
                 got_exec = [{'method': e['method'], 'args': e['args']} for e in log]
-                if not sh._multiset_eq(got_exec, exp.executions):
-                    found.append(('executions', f"log {jg.short(got_exec)} expected {jg.short(exp.executions)}"))
+                if not sh._multiset_eq(got_exec, exp_executions):
+                    found.append(('executions', f"log {jg.short(got_exec)} expected {jg.short(exp_executions)}"))
             begins = [e[1] for e in flight if e[0] == 'begin']
             finishes = [e[1] for e in flight if e[0] == 'finish']
             if finishes != sorted(finishes):
@@ -195,7 +209,7 @@ class C10(Check):
                 if bucket not in seen_buckets:
                     seen_buckets.add(bucket)
                     discs.append(Disc(f"C10/{bucket}", f"schedule {choices}: {detail} | concurrent={spec['concurrent']} elements={jg.short(spec['elements'])} "
-                                                        f"mw={spec.get('mw_suspend')} eh={spec.get('eh_suspend')}"))
+                                                        f"mw={spec.get('mw_suspend')} eh={spec.get('eh_suspend')} handlers={handler_table(spec)}"))
 
         exhaustive = False
         if spec['schedule'] == 'all':
@@ -225,6 +239,8 @@ class C10(Check):
             classes.append('mw/suspends')
         if spec.get('eh_suspend') and any(el['method'] in ('rpc', 'exc', 'nope') for el in spec['elements']):
             classes.append('eh/suspends')
+        if spec.get('eh_suspend') is not None and len([el for el in spec['elements'] if el['method'] in ('rpc', 'exc', 'nope')]) >= 2:
+            classes.append(f"eh/{spec.get('eh_kind', 'identity')}/two-failing-elements")
         if stats['reordered']:
             classes.append('reorder-possible')
         if not spec['concurrent'] and stats['schedules'] > 1:
